@@ -123,8 +123,8 @@ Section EVAL.
       | None => None
       end
     | Col x _ => ev rho x
-    | Idx a k => match ev rho a, ev rho k with
-                 | Some (VArr l), Some (VI i) => nth_error l (Z.to_nat (i - 1))
+    | Idx a k => match ev rho a, ev rho k with               (* arr[i], 1-based; outside the array: the default '' *)
+                 | Some (VArr l), Some (VI i) => Some (nth (Z.to_nat (i - 1)) l (VS ""))
                  | _, _ => None end
     | Fn name args =>
       if String.eqb name "arrayExists" then
